@@ -55,6 +55,12 @@ def run(chk, tier):
     for fn, u in (("hwloc_internal_memattrs_dup", "memattrs.c"), ("hwloc_internal_cpukinds_dup", "cpukinds.c"), ("hwloc__duplicate_object", "topology.c")):
         m += dup.memcpy_pointer_fields(chk, P, fn, u)
     chk.floor("R-NOALIAS", "pointer stores on the copy examined", m, 30)
+    chk.rule("R-SHALLOWELEM", "an array of records copied in bulk by memcpy gets every pointer field of every element re-assigned: must-fact dataflow scoped to one iteration of the loop that walks the "
+             "elements (through `E = &D[i]` or `D[i].f`); the facts must hold on every back edge, so an iteration that ends early (`continue`) with a field as copied is reported")
+    nse = 0
+    for fn, u in (("hwloc_internal_memattrs_dup", "memattrs.c"), ("hwloc_internal_cpukinds_dup", "cpukinds.c")):
+        nse += dup.shallow_elements(chk, P, fn, u)
+    chk.floor("R-SHALLOWELEM", "pointer fields of bulk-copied elements", nse, 4)
     chk.rule("R-UAF", "no use of a pointer after it was released: may-dataflow on released lvalues (free, hwloc_bitmap_free, hwloc_free_unlinked_object, closedir, ...), killed by re-assignment, with a correlated-condition path search and whole-program constant fields to discard infeasible paths")
     nua = uaf.run(chk, P, units=('topology.c', 'distances.c', 'memattrs.c', 'cpukinds.c'))
     chk.floor("R-UAF", "release sites examined", nua, 100)
